@@ -189,6 +189,55 @@ async def scenario_composed(lags):
     return None
 
 
+async def scenario_gaps(step_lists):
+    """Streams whose first samples do not line up AND have a gap, so that the first synchronisation attempt fails
+    ("unable to synchronise"): the engine drops that round and must synchronise again - afterwards every emitted sample
+    stamped T is again the sum of the inputs stamped T, timestamps strictly increase, and the common tail is emitted."""
+    from frequenz.channels import Broadcast
+    from frequenz.quantities import Quantity
+    from frequenz.sdk.timeseries import Sample
+    from frequenz.sdk.timeseries.formula_engine._formula_engine import FormulaBuilder
+    n = len(step_lists)
+    chans = [Broadcast(name=f"gap{i}") for i in range(n)]
+    b = FormulaBuilder("gaps", Quantity)
+    for i, ch in enumerate(chans):
+        b.push_metric(f"m{i}", ch.new_receiver(limit=50), nones_are_zeros=False)
+        if i:
+            b.push_oper("+")
+    eng = b.build()
+    out = eng.new_receiver()
+    got = []
+
+    async def consume():
+        async for smp in out:
+            got.append(smp)
+
+    consumer = asyncio.create_task(consume())
+    senders = [ch.new_sender() for ch in chans]
+    for i, steps in enumerate(step_lists):
+        for step in steps:
+            await senders[i].send(Sample(T0 + timedelta(seconds=step), Quantity(val(i, step))))
+    for _ in range(300):
+        await asyncio.sleep(0)
+    consumer.cancel()
+    await eng._stop()  # pylint: disable=protected-access
+    stamps = [int((smp.timestamp - T0).total_seconds()) for smp in got]
+    if any(b2 <= a for a, b2 in zip(stamps, stamps[1:])):
+        return f"emitted timestamps {stamps} do not strictly increase"
+    for smp, step in zip(got, stamps):
+        if any(step not in steps for steps in step_lists):
+            return f"a sample stamped step {step} was emitted although not every input has a sample of that step ({step_lists})"
+        want = sum(val(i, step) for i in range(n))
+        have = None if smp.value is None else smp.value.base_value
+        if have is None or abs(have - want) > 1e-6:
+            return (f"sample stamped step {step} has value {have}; the inputs stamped step {step} give {want} "
+                    f"(each input = 1000*(stream+1) + step; streams delivered steps {step_lists})")
+    common_tail = [t for t in step_lists[0][-2:] if all(t in steps for steps in step_lists)]
+    if any(t not in stamps for t in common_tail):
+        return f"steps {common_tail} are delivered by every stream at the end but were not emitted (emitted: {stamps})"
+    return None
+
+
 def run(req):
     logging.disable(logging.CRITICAL)
     t0 = time.time()
@@ -220,6 +269,23 @@ def run(req):
             if f:
                 failure = (f, {"first_steps": list(starts), "delivery": mode, "missing (stream, step)": sorted(missing),
                                "nones_are_zeros": zeros})
+    gap_cases = [
+        [[10, 11, 12, 13, 14, 15, 16, 17, 18], [5, 15, 16, 17, 18]],
+        [[0, 2, 3, 4, 5, 6], [1, 2, 3, 4, 5, 6]],
+        [[5, 15, 16, 17, 18], [10, 11, 12, 13, 14, 15, 16, 17, 18]],
+        [[3, 4, 5, 6, 7, 8], [0, 6, 7, 8], [3, 4, 5, 6, 7, 8]],
+        [[0, 1, 2, 3, 4, 5, 6, 7], [2, 3, 4, 5, 6, 7], [1, 5, 6, 7]],
+    ]
+    for step_lists in gap_cases:
+        if failure:
+            break
+        evaluations += 1
+        try:
+            f = asyncio.run(scenario_gaps(step_lists))
+        except Exception as e:  # pylint: disable=broad-except
+            f = f"gap scenario raised {type(e).__name__}: {e}"
+        if f:
+            failure = (f, {"steps_delivered_per_stream": step_lists})
     three_phase = [(l, m, (0, 0, 0)) for l in itertools.product((0, 1, 4), repeat=3) for m in (1, 2, 50)]
     three_phase += [(l, 50, st) for st in itertools.product(range(3), repeat=3) if st != (0, 0, 0)
                     for l in ((0, 0, 0), (0, 1, 4), (4, 0, 1))]
@@ -251,7 +317,8 @@ def run(req):
                    "(pre-buffered, interleaved with loop iterations, burst per step, consumer subscribing after the data); "
                    "8 steps per stream; 27 first-step combinations x 2 delivery modes x nones_are_zeros on/off x one None sample "
                    "(first or second sample of one stream): the output is None exactly when an input of ITS timestamp is "
-                   "missing (else the missing input counts 0); plus the 3-phase engine over three single-metric engines: 27 delivery lags (0/1/4 steps per "
+                   "missing (else the missing input counts 0); 5 start-ups whose first synchronisation attempt fails (a gap in a lagging stream) and must be "
+                   "repeated; plus the 3-phase engine over three single-metric engines: 27 delivery lags (0/1/4 steps per "
                    "phase) x consumer buffer sizes 1/2/50 with a common first timestamp, and the 26 unaligned first-step "
                    "combinations 0..2 x 3 lag patterns, 6 steps; plus the composed formula (a + b) + c built with the operator "
                    "API over three single-metric engines, 27 delivery lags; all cases distinct"}
